@@ -171,7 +171,7 @@ def monitor_factory(ctx):
                     continue
                 # documented domain: every referenced workspace is resolvable and
                 # no workspace token is glued to another token
-                refs = re.findall(r"\$\(([\w-]+)\.workspace\)", src)
+                refs = re.findall(r"\$\(([\w.-]+)\.workspace\)", src)
                 if any((x + ".workspace") not in sigma for x in refs):
                     ok = False
                     continue
